@@ -761,12 +761,231 @@ def elim_source_correspondence(ck, gen_ok):
                   (f'failing (history, step): {bad[:6]}' if src_ok else 'Gen/CircuitElimSrc.v does not compile / was not generated'))
 
 
+# ---- source tie of the pickle pair (Properties/C10.v section 10; translate/gen_circuit_pickle.py -> Gen/CircuitPickleSrc.v,
+# Model/CircuitPickleSrcLib.v, Model/CircuitPickleSrcCorr.v, Proofs/CircuitPickleSrcProofs.v) ---------------------------------------
+THEOREMS_PICKLESRC = ['C10_getstate_source_is_model', 'C10_setstate_source_is_model', 'C10_pickle_source_is_model',
+                      'C10_pickle_source_example']
+THEOREMS += THEOREMS_PICKLESRC
+PICKLE_SRC_STEP = """From KV Require Import Model.CircuitPickleSrcLib Gen.CircuitPickleSrc.
+Definition step_p := step_src Node_init_src Node_remove_src Line_init_src Line_remove_src GrowingList_setitem_src.
+Definition step_s (c : circ) (o : op) : option circ :=
+  match o with
+  | PickleRoundTrip => match Circuit_getstate_src c PNone with Some v => option_map snd (Circuit_setstate_src v) | None => None end
+  | _ => step_p c o
+  end.
+"""
+PICKLE_CASE_HEADER = """From Coq Require Import ZArith.
+From KV Require Import Model.CircuitPrimsSrcLib Model.CircuitPickleSrcLib Model.CircuitPickleSrcCorr Gen.CircuitPrimsSrc Gen.CircuitPickleSrc.
+"""
+LIST_CLASS_TAG = {'IndexList': 'CIndexList', 'GrowingList': 'CGrowingList', 'list': 'CList'}
+
+
+class UnexpectedForm(Exception):
+    pass
+
+
+def py_lit(q, v):
+    """a Python value made of None / int / str / tuple / list / dict with str keys as a [pyval] literal (anything else: UnexpectedForm)"""
+    if v is None:
+        return 'PNone'
+    if type(v) is int:
+        return f'(PInt ({v})%Z)'
+    if type(v) is str:
+        return f'(PStr {q(v)})'
+    if type(v) is tuple:
+        return '(PTuple [' + '; '.join(py_lit(q, x) for x in v) + '])'
+    if type(v) is list:
+        return '(PList [' + '; '.join(py_lit(q, x) for x in v) + '])'
+    if type(v) is dict and all(type(k) is str for k in v):
+        return '(PDict [' + '; '.join(f'({q(k)}, {py_lit(q, x)})' for k, x in v.items()) + '])'
+    raise UnexpectedForm(f'{type(v).__name__} inside the state dict')
+
+
+def unpickled_lit(q, ce, c2):
+    tags = []
+    for a in ('nodes', 'lines', 'io_nodes'):
+        cls = type(getattr(c2, a)).__name__
+        if type(getattr(c2, a)).__module__ not in ('kyupy.circuit', 'builtins') or cls not in LIST_CLASS_TAG:
+            raise UnexpectedForm(f'{a} is a {cls}')
+        tags.append(LIST_CLASS_TAG[cls])
+    return f'(Some (mkM {py_lit(q, c2.name)} {" ".join(tags)}, {ce.coq_view(q, ce.view(c2))}))'
+
+
+def pickle_source(ck):
+    """tie T for Circuit.__getstate__ / __setstate__: regenerate Gen/CircuitPickleSrc.v from the current circuit.py"""
+    from vcheck import gen_all
+    res = gen_all.generate(['CircuitPrimsSrc', 'CircuitPickleSrc'])
+    err = res['CircuitPickleSrc'] or res['CircuitPrimsSrc']
+    ck.obligation('translate circuit.py Circuit.__getstate__ / __setstate__ -> Gen/CircuitPickleSrc.v (statement by statement, fail-closed; '
+                  'Node(...) / Line(...) go to the translated constructors of Gen/CircuitPrimsSrc.v; the class each list attribute is '
+                  'created with is part of the translated result)', err is None, 'translation', err or '')
+    ck.trust('translator translate/gen_circuit_pickle.py (extends the fail-closed ast translator of translate/gen_circuit_prims.py by the '
+             'sort pyval = Python value of None / int / str / tuple / list / dict, list comprehensions over the circuit containers, the dict '
+             'display, loops over values of the state dict, Node(self, *s), Line(self, (self.nodes[i], p), ..), io_nodes.append; vocabulary '
+             'Model/CircuitPickleSrcLib.v; assumptions: pickling / unpickling a value of that form is the identity, the new object starts '
+             'without attributes and shares nothing with the pickled circuit (its graph state starts as the empty state), no '
+             '__reduce__ / __copy__ hook (checked syntactically)); its output is additionally run against the real methods')
+    return err is None
+
+
+def pickle_source_correspondence(ck, gen_ok):
+    import pickle as _pickle
+    from vcheck import core
+    from harness import circuit_edit as ce
+    from kyupy import circuit as kc
+    src_ok = gen_ok and core.coq_make(['theories/Gen/CircuitPickleSrc.vo'] + core.support_targets())[0]
+    rng = random.Random(ck.seed * 7919 + 1013)
+    # A: edit histories whose pickle steps run the translated pair; after the round trip a non-last line is removed and a node added
+    hs = []
+    for i in range(ck.scale(12, 160)):
+        h = ce.run_history(rng, rng.choice([10, 25, 50]), 'valid' if i % 4 else 'wild')
+        ops = [list(o) if isinstance(o, list) else o for o in h['ops']]
+        if h['steps'] and h['steps'][-1][2] is None:
+            ops = ops[:-1]
+        views = [st[2] for st in h['steps'] if st[2] is not None]
+        # after a round trip the objects are numbered in creation order = index order: line 0 exists iff there is a line
+        tail = ([['pickle']] + ([['rmline', 0]] if views and views[-1]['lines'] else []) +
+                [['node', 'after_pickle', FORK], ['pickle'], ['rmnode', 0]])
+        hs.append(ce.run_history(rng, 0, 'wild', fixed_ops=ops + tail))
+    n_pk = sum(1 for h in hs for st in h['steps'] if st[0][0] == 'pickle' and st[2] is not None)
+    n_rm = 0
+    for h in hs:
+        for a, b in zip(h['steps'], h['steps'][1:]):
+            if a[0][0] == 'pickle' and a[2] is not None and b[0][0] == 'rmline' and b[2] is not None and len(a[2]['lines']) > 1:
+                n_rm += 1
+    # B: the state dict itself and the translated __setstate__ on the REAL dict
+    q = ce.Strings()
+    defs, calls, what = [], [], []
+    n_raise_get = n_ok = n_raise_set = 0
+
+    def real_setstate(st):
+        c2 = kc.Circuit.__new__(kc.Circuit)
+        try:
+            c2.__setstate__(st)
+        except RecursionError:
+            raise
+        except Exception:
+            return None
+        return c2
+
+    pool = []
+    for i in range(ck.scale(30, 400)):
+        h = ce.run_history(rng, rng.choice([6, 15, 40]), 'valid' if i % 3 else 'wild')
+        ops = [st[0] for st in h['steps'] if st[2] is not None]
+        if len(ops) != len(h['steps']):
+            ops = ops[:len(ops)]
+        pool.append(ops)
+    form_errors = []
+    for ci, ops in enumerate(pool):
+        tr = ce.Tracker()
+        try:
+            with ce.tracking(tr):
+                S = ce.Session(tr)
+                for op in ops:
+                    ce.apply(S, list(op) if isinstance(op, list) else op)
+            tr.on = False
+        except Exception as e:
+            tr.on = False
+            continue
+        c = S.c
+        if ci % 5 == 0:
+            c.name = f'top{ci}'
+        try:
+            try:
+                st = c.__getstate__()
+            except RecursionError:
+                raise
+            except Exception:
+                st = None
+            if st is None:
+                n_raise_get += 1
+                r = f'(PKR {py_lit(q, c.name)} None None)'
+            else:
+                st2 = _pickle.loads(_pickle.dumps(st))
+                lit = py_lit(q, st)
+                if py_lit(q, st2) != lit:
+                    raise UnexpectedForm('the state dict does not survive pickling unchanged')
+                try:
+                    c2 = _pickle.loads(_pickle.dumps(c))
+                except RecursionError:
+                    raise
+                except Exception:
+                    c2 = None
+                n_ok += c2 is not None
+                r = f'(PKR {py_lit(q, c.name)} (Some {lit}) {"None" if c2 is None else unpickled_lit(q, ce, c2)})'
+                # damaged dicts: a node twice, a line to a missing node, a dropped key
+                if ci % 4 == 1 and st['nodes']:
+                    for bad_st in (dict(st, nodes=list(st['nodes']) + [st['nodes'][0]]),
+                                   dict(st, lines=list(st['lines']) + [(0, 0, len(st['nodes']), 0)]),
+                                   dict(st, io_nodes=list(st['io_nodes']) + [len(st['nodes'])]),
+                                   {k: v for k, v in st.items() if k != 'lines'},
+                                   dict(st, nodes=[tuple(x[:1]) if x[1] == FORK else x for x in st['nodes']])):
+                        c3 = real_setstate(bad_st)
+                        n_raise_set += c3 is None
+                        defs.append(f'Definition ops_{len(calls)} : list op := [].\n'
+                                    f'Definition r_{len(calls)} : pk_real := (PKD {py_lit(q, bad_st)} '
+                                    f'{"None" if c3 is None else unpickled_lit(q, ce, c3)}).\n')
+                        what.append((ci, 'damaged dict'))
+                        calls.append(len(calls))
+        except UnexpectedForm as e:
+            form_errors.append((ci, str(e)))
+            continue
+        defs.append(f'Definition ops_{len(calls)} : list op := [' + '; '.join(ce.coq_op(q, op) for op in ops) + '].\n'
+                    f'Definition r_{len(calls)} : pk_real := {r}.\n')
+        what.append((ci, 'history'))
+        calls.append(len(calls))
+    ck.count(n_pk + len(calls), 'pickle round trips / state dicts on the translated source')
+    ck.nontrivial(('pickle-src', n_pk, n_rm, n_ok, n_raise_get, n_raise_set))
+    bad, ran = [], src_ok
+    if src_ok:
+        parts = [list(range(i, min(i + 8, len(hs)))) for i in range(0, len(hs), 8)]
+        texts = []
+        for part in parts:
+            t = ce.cases_file_both([hs[i]['steps'] for i in part])
+            line = [l for l in t.splitlines() if l.startswith('Definition step_s :=')]
+            assert len(line) == 1
+            texts.append(t.replace(line[0] + '\n', PICKLE_SRC_STEP))
+        chunks = [calls[i:i + 40] for i in range(0, len(calls), 40)]
+        for ch in chunks:
+            body = '; '.join(f'pickle_case Circuit_getstate_src Circuit_setstate_src ops_{k} r_{k}' for k in ch)
+            texts.append(ce.HEADER + PICKLE_CASE_HEADER + q.defs() + ''.join(defs[k] for k in ch) +
+                         f'Eval vm_compute in (failing_codes 0 [{body}]).\n')
+        outs = ck.coq_eval_many('picklesrc', texts, jobs=8, timeout=900)
+        for part, (ok, out) in zip(parts, outs[:len(parts)]):
+            pairs, pairs_src = ce.parse_pairs_both(out) if ok else (None, None)
+            if pairs_src is None:
+                ran = False
+                bad.append(('coq', out[-300:]))
+            else:
+                bad += [('history', part[ci], k) for ci, k in pairs_src]
+        for ch, (ok, out) in zip(chunks, outs[len(parts):]):
+            pairs = ce.parse_pairs(out) if ok else None
+            if pairs is None:
+                ran = False
+                bad.append(('coq', out[-300:]))
+            else:
+                bad += [('dict', what[ch[i]], {1: 'model state', 2: 'state dict differs', 3: 'unpickled object differs'}.get(code, code))
+                        for i, code in pairs]
+    bad += [('form', ci, msg) for ci, msg in form_errors]
+    ck.obligation(f'translated source Gen/CircuitPickleSrc.v = implementation: (a) on {len(hs)} edit histories every pickle round trip '
+                  f'({n_pk}) is executed by the translated __getstate__ / __setstate__ (all primitive steps by the translated primitives), '
+                  f'followed by the removal of a line of the unpickled circuit ({n_rm} of them not the last line) and a second round trip: '
+                  f'full state after every step and which calls raise; (b) on {len(calls)} circuits / state dicts the dict the real '
+                  f'__getstate__ returns (every item, types included; {n_raise_get} raising) = the translated one, and the translated '
+                  f'__setstate__ run on the REAL dict = the real unpickled object (full view, name, classes of nodes / lines / io_nodes; '
+                  f'{n_ok} rebuilt, {n_raise_set} damaged dicts raising)',
+                  ran and not bad and n_pk > 0 and n_rm > 0 and n_ok > 0 and n_raise_set > 0, 'correspondence',
+                  (f'failing: {bad[:6]}' if src_ok else 'Gen/CircuitPickleSrc.v does not compile / was not generated'))
+
+
 def run(ck):
     from kyupy import techlib
     gen_ok = elim_source(ck)
+    pk_ok = pickle_source(ck)
     if THEOREMS:
         ck.prove('C10', THEOREMS)
     elim_source_correspondence(ck, gen_ok)
+    pickle_source_correspondence(ck, pk_ok)
     view_correspondence(ck)
     cell_corr.run_lib(ck)      # ck.prove('C10Lib', THEOREMS_LIB) + exhaustive library correspondence / oracle
     rng = random.Random(ck.seed * 7919 + 10)
